@@ -42,9 +42,21 @@ fn gen(seed: u64, tier: Tier) -> Case {
     }
     // (23..25 and 60 distinct owners: the witness collections' own array heads cross the 23/24 edge)
     let nkeys = *r.pick(&[1u16, 2, 3, 8, 8, 24, 25, 60]);
+    let many_owners = nkeys >= 24;
     let byron_pm = *r.pick(&[0u64, 0, 100, 500]);
     let mut w = World { network: r.below(2) as u8, magic: 764824073, scripts: vec![ScriptSpec::Native(Ns::Pk(0))], datums: vec![], utxos: vec![], decoded_scripts: false };
-    let n = if tier == Tier::Thorough { *r.pick(&[1usize, 2, 3, 5, 8, 13, 23, 24, 25, 40, 60, 120, 255, 256, 400]) } else { *r.pick(&[1usize, 2, 3, 4, 5, 8, 13, 23, 24, 25, 40, 60]) };
+    let n = if many_owners {
+        // as many UTxOs as owners, each with its own key, so that one transaction sees 23..26 (or 60) distinct signers
+        *r.pick(&[23usize, 24, 25, 26, 60])
+    } else if tier == Tier::Thorough {
+        *r.pick(&[1usize, 2, 3, 5, 8, 13, 23, 24, 25, 40, 60, 120, 255, 256, 400])
+    } else {
+        *r.pick(&[1usize, 2, 3, 4, 5, 8, 13, 23, 24, 25, 40, 60])
+    };
+    let all_byron_owners = many_owners && r.chance(1, 3);
+    if many_owners {
+        k.max_tx_size = 16384;
+    }
     let npol = *r.pick(&[0u16, 1, 1, 2, 3, 5, 10, 24]);
     let names_per_pol = *r.pick(&[1usize, 1, 2, 3, 8, 23, 24, 30]);
     let mut classes: Vec<(u16, Vec<u8>)> = vec![];
@@ -66,7 +78,7 @@ fn gen(seed: u64, tier: Tier) -> Case {
     let coin_mode = r.below(5);
     for i in 0..n {
         let mut assets = vec![];
-        if !classes.is_empty() && assets_per_utxo > 0 && r.chance(3, 4) {
+        if !many_owners && !classes.is_empty() && assets_per_utxo > 0 && r.chance(3, 4) {
             let m = 1 + r.usize_below(assets_per_utxo.min(classes.len()));
             let start = r.usize_below(classes.len());
             for j in 0..m {
@@ -99,7 +111,18 @@ fn gen(seed: u64, tier: Tier) -> Case {
                 min + r.below(1 << e)
             }
         };
-        let addr = if r.chance(1, 60) { AddrSpec::Ent(Cred::Script(0)) } else { sess::gen_key_addr(&mut r, nkeys, byron_pm) };
+        let addr = if many_owners {
+            let kk = (i as u16) % nkeys.min(60);
+            if all_byron_owners {
+                AddrSpec::Byron(kk)
+            } else {
+                AddrSpec::Base(Cred::Key(kk), Cred::Key(kk))
+            }
+        } else if r.chance(1, 60) {
+            AddrSpec::Ent(Cred::Script(0))
+        } else {
+            sess::gen_key_addr(&mut r, nkeys, byron_pm)
+        };
         w.utxos.push(Utxo { tx: 1 + i as u32 / 3, ix: (i % 3) as u32 + if r.chance(1, 10) { 255 } else { 0 }, addr, coin, empty_ma: if assets.is_empty() { r.chance(1, 10) } else { r.chance(1, 30) }, assets, datum: None, script_ref: if r.chance(1, 30) { Some(0) } else { None } });
     }
     let mut seen = BTreeSet::new();
